@@ -210,9 +210,34 @@ def _ancestor_ifs(f: FuncInfo, st: ast.AST):
     return out
 
 
+PREDICTION_OUTPUTS = ("predicted", "predicted_unc", "heating_load", "cooling_load", "predicted_usage", "model_split", "model_type")
+
+
+def _billing_predict_by_interpretation(chk, r1, f: FuncInfo, seen: Set[str]) -> None:
+    """BillingModel.predict / BillingWeightedModel.predict are judged from their abstract interpretation (rules/billing_agg.py): in every
+    scenario the only returned item computed from the usage column is the `observed` column itself (a pass-through)."""
+    from rules.billing_agg import billing_outcomes
+    key = f"{f.key}|usage-only-in-observed"
+    if key in seen:
+        return
+    seen.add(key)
+    out = billing_outcomes(chk, f, {"BillingModel", "DailyModel", f.cls.name if f.cls else "BillingModel"})
+    bad = []
+    for (agg, wo), o in out.items():
+        for i in o.get("items", []):
+            if i.get("source_column", "").startswith(USAGE) and not str(i.get("column", "")).startswith(USAGE):
+                bad.append((agg, i))
+    r1.require(not bad, key, f.where(), f"{f.qualname}: a returned column other than `observed` is computed from the reporting period's usage: {bad[:2]}",
+               sample={"function": f.qualname, "scenarios": len(out)})
+
+
 def _taint_function(chk, r1, fam: str, f: FuncInfo, derived_cols: Set[str], seen: Set[str], final: bool):
     """Intraprocedural taint from usage reads (explicit column reads, whole-frame reductions, derived columns, tainted locals)
     to escapes: return, self-attribute store, non-observed column store (-> derived column), call argument."""
+    if f.name == "predict" and f.cls is not None and f.cls.name in ("BillingModel", "BillingWeightedModel") and "aggregation" in f.params:
+        if final:
+            _billing_predict_by_interpretation(chk, r1, f, seen)
+        return
     from engine.dataflow import own_exprs
     tainted: Set[str] = set()
     stmts = [s for s in walk_no_nested(f.node) if isinstance(s, ast.stmt)]
@@ -274,6 +299,8 @@ def _taint_function(chk, r1, fam: str, f: FuncInfo, derived_cols: Set[str], seen
                             cls_ = "pass-through (stored under an observed* column)"
                         elif col == "predicted_uncertainty":
                             cls_ = "uncertainty-only"
+                        elif col in PREDICTION_OUTPUTS:
+                            escape = f"stored into the prediction output `{col}`"
                         elif col is not None:
                             derived_cols.add(col)
                             cls_ = f"derived column `{col}` (judged at its reads)"
